@@ -29,9 +29,11 @@ type FuncContract struct {
 	GhostRets []GhostRet // ghost results: a value determined inside the function (e.g. the state at loop entry), an opaque
 	                     // fresh constant for callers
 	Watch    []Clause // expressions over the entry state evaluated in a counterexample (make models readable, feed replay)
+	Assume   []Clause // facts about package variables of dependencies, assumed at entry and listed in evidence
 	Given    []Clause // facts about package tables, assumed at entry and proved by the package's "tables" unit (not callers' obligations)
 	Ensures  []Clause
 	Loops    map[int][]Clause
+	AbstractLoops map[int]string // loop ordinal -> reason: the body is not executed; its clauses are assumed at the exit (listed in evidence, covered by a bounded stand-in)
 	Inline   []string
 	Trusted  bool
 	Havoc    []string            // heaps havoced by a call
@@ -350,11 +352,18 @@ func (cs *ContractSet) LoadLines(path string, lines []string, lineNos []int, pkg
 			cur.Havoc = append(cur.Havoc, splitNames(rest)...)
 		case kw == "loop":
 			var err error
-			loop, err = strconv.Atoi(rest)
+			num, more, _ := strings.Cut(rest, " ")
+			loop, err = strconv.Atoi(num)
 			if err != nil {
 				return fail(err)
 			}
-		case kw == "requires" || kw == "ensures" || kw == "invariant" || kw == "given" || kw == "watch" || kw == "abstracts":
+			if r, ok := strings.CutPrefix(strings.TrimSpace(more), "abstract"); ok {
+				if cur.AbstractLoops == nil {
+					cur.AbstractLoops = map[int]string{}
+				}
+				cur.AbstractLoops[loop] = strings.TrimSpace(r)
+			}
+		case kw == "requires" || kw == "ensures" || kw == "invariant" || kw == "given" || kw == "watch" || kw == "abstracts" || kw == "assume":
 			if err := needCur(); err != nil {
 				return err
 			}
@@ -369,6 +378,8 @@ func (cs *ContractSet) LoadLines(path string, lines []string, lineNos []int, pkg
 				cur.Requires = append(cur.Requires, cl)
 			case "given":
 				cur.Given = append(cur.Given, cl)
+			case "assume":
+				cur.Assume = append(cur.Assume, cl)
 			case "watch":
 				cur.Watch = append(cur.Watch, cl)
 			case "abstracts":
